@@ -34,7 +34,9 @@ func vpH_c02_parsed() {
 	ctx := context.Background()
 	v1 := vpStr(1, "x-z")
 	doc := vpDocMap("command", vpStrUpTo(1, "a-c"))
-	switch vpInt(0, 9) { // matrix spellings
+	switch vpInt(0, 10) { // matrix spellings
+	case 10: // explicitly empty adjustments and an empty extra next to named dimensions
+		doc.Set("matrix", vpDocMap("setup", vpDocMap("os", []any{v1}), "adjustments", []any{}, "notes", []any{}, "opts", vpDocMap()))
 	case 1:
 		doc.Set("matrix", []any{}) // `matrix: []`
 	case 2:
@@ -62,7 +64,9 @@ func vpH_c02_parsed() {
 	case 3:
 		doc.Set("env", nil)
 	}
-	switch vpInt(0, 4) { // plugin spellings
+	switch vpInt(0, 5) { // plugin spellings
+	case 5: // explicitly empty configs
+		doc.Set("plugins", []any{vpDocMap("ecr#v2", vpDocMap()), vpDocMap("s3#v1", []any{}), vpDocMap("q#v1", vpDocMap("nested", vpDocMap(), "l", []any{}))})
 	case 1:
 		doc.Set("plugins", []any{})
 	case 2:
